@@ -163,6 +163,9 @@ def chain(t, extra=()):
             t = t[1]
         elif t[0] == "call" and len(t) > 5 and t[4] in MAP_ADAPTERS:
             t = t[5]
+        elif t[0] in ("index", "cidx") and "core::ops::Index::index" in extra:
+            # element access `x[i]` counts as "an element of x" for the callers that ask for element chains
+            t = t[1]
         else:
             break
     names.reverse()
